@@ -62,7 +62,7 @@ impl Buffer {
         // This is guaranteed by exposed API to construct this struct
         let buffer = unsafe { std::slice::from_raw_parts(self.data, self.len) };
 
-        target.clone_from_slice(buffer);
+        target.extend_from_slice(buffer);
         target
     }
 
